@@ -385,6 +385,18 @@ def opTruncate (j : Json) : Except String Json := do
   let T := Dual.truncate L fun n => chosen.contains n
   pure (Json.mkObj (jlat T ++ [("scale", jint T.scale)]))
 
+
+/-! ### C20: sampling points (exact) -/
+
+def jtriple (t : Int × Int × Int) : Json := Json.arr #[jint t.1, jint t.2.1, jint t.2.2]
+
+def opSampling (j : Json) : Except String Json := do
+  let s ← nat (← field j "samples")
+  if s < 2 then throw "precondition:samples<2"
+  let ties := ((Phase.grid s).filter (Phase.tieSym s)).length
+  pure (Json.mkObj [("den", jint (2 * ((s : Int) - 1))), ("plain", jlist jtriple (Phase.plain s)),
+                    ("symmetric", jlist jtriple (Phase.symmetric s)), ("ties", jnat ties)])
+
 def dispatch (op : String) (j : Json) : Except String Json :=
   match op with
   | "plaquettes" => opPlaquettes j
@@ -402,6 +414,7 @@ def dispatch (op : String) (j : Json) : Except String Json :=
   | "bluenoise" => opBluenoise j
   | "astar" => opAstar j
   | "dual" => opDual j
+  | "sampling" => opSampling j
   | "truncate" => opTruncate j
   | "metric" => opMetric j
   | "lateq" => opLatEq j
